@@ -173,6 +173,63 @@ def likePiecesPos (r : Rng) : Rng × Option Rules.Pos :=
   let p := if mir = 0 then p else mirrorPos p
   (r, if hasBothKings p && Rules.legalPos p then some p else none)
 
+/-- exchanges around one square: a victim on a central square, and along each of the eight lines through it
+    zero, one or two sliders (the second one x-raying through the first) of either colour, plus knights —
+    so that equally valued attackers of one colour stand on one rank, one file or one diagonal, with
+    batteries hidden behind some of them -/
+def exchangePos (r : Rng) : Rng × Option Rules.Pos :=
+  let empty : Rules.RBoard := Vector.replicate 64 none
+  let (r, tf) := r.below 4
+  let (r, tr) := r.below 4
+  let tf := tf + 2
+  let tr := tr + 2
+  let (r, vk) := r.below 4
+  let victim : PieceKind := match vk with | 0 => .pawn | 1 => .knight | 2 => .bishop | _ => .rook
+  let b := empty.set! (sqAt tf tr) (some ⟨victim, .black⟩)
+  let dirs : List (Int × Int) := [(1, 0), (-1, 0), (0, 1), (0, -1), (1, 1), (1, -1), (-1, 1), (-1, -1)]
+  let rec lines (ds : List (Int × Int)) (r : Rng) (b : Rules.RBoard) : Rng × Rules.RBoard :=
+    match ds with
+    | [] => (r, b)
+    | (dx, dy) :: rest =>
+      let (r, n) := r.below 4          -- 0, 1, 1, 2 sliders on this line
+      let n := if n = 3 then 2 else if n = 0 then 0 else 1
+      let (r, gap) := r.below 2
+      let place (b : Rules.RBoard) (dist : Nat) (r : Rng) : Rng × Rules.RBoard :=
+        let x : Int := (tf : Int) + dx * dist
+        let y : Int := (tr : Int) + dy * dist
+        if 0 ≤ x ∧ x < 8 ∧ 0 ≤ y ∧ y < 8 then
+          let (r, col) := r.below 2
+          let (r, q) := r.below 3
+          let kind : PieceKind := if q = 0 then .queen else if dx = 0 ∨ dy = 0 then .rook else .bishop
+          (r, putIfEmpty b (sqAt x.toNat y.toNat) ⟨kind, if col = 0 then .white else .black⟩)
+        else (r, b)
+      let (r, b) := if n ≥ 1 then place b (1 + gap) r else (r, b)
+      let (r, b) := if n ≥ 2 then place b (2 + gap) r else (r, b)
+      lines rest r b
+  let (r, b) := lines dirs r b
+  -- knights of both colours on knight squares of the target
+  let (r, nk) := r.below 3
+  let rec knights (fuel : Nat) (r : Rng) (b : Rules.RBoard) : Rng × Rules.RBoard :=
+    match fuel with
+    | 0 => (r, b)
+    | fuel+1 =>
+      let (r, i) := r.below 8
+      let (r, col) := r.below 2
+      let d := Rules.knightDeltas.getD i (1, 2)
+      let x : Int := (tf : Int) + d.1
+      let y : Int := (tr : Int) + d.2
+      let b := if 0 ≤ x ∧ x < 8 ∧ 0 ≤ y ∧ y < 8 then
+          putIfEmpty b (sqAt x.toNat y.toNat) ⟨.knight, if col = 0 then .white else .black⟩ else b
+      knights fuel r b
+  let (r, b) := knights nk r b
+  let (r, wk) := r.below 64
+  let (r, bk) := r.below 64
+  let b := putIfEmpty (putIfEmpty b wk ⟨.king, .white⟩) bk ⟨.king, .black⟩
+  let (r, mir) := r.below 2
+  let p : Rules.Pos := { board := b, player := .white, rights := Rights.none, ep := none, halfmove := 0, plies := 50 }
+  let p := if mir = 0 then p else mirrorPos p
+  (r, if hasBothKings p && Rules.legalPos p then some p else none)
+
 def genTactical (kind : String) (seed n : Nat) (rootsFile : String) : IO Unit := do
   let roots ← readLines rootsFile
   let out ← IO.getStdout
@@ -190,8 +247,8 @@ def genTactical (kind : String) (seed n : Nat) (rootsFile : String) : IO Unit :=
   let mut tries := 0
   while k < n / 2 && tries < 50 * n do
     tries := tries + 1
-    let (r1, which) := r.below 3
-    let (r2, p) := if which == 0 then templatePos r1 else likePiecesPos r1
+    let (r1, which) := r.below 5
+    let (r2, p) := if which == 0 then templatePos r1 else if which < 3 then likePiecesPos r1 else exchangePos r1
     r := r2
     match p with
     | some p =>
